@@ -67,6 +67,11 @@ def main():
     # evidence files were rewritten by runs against mutants: restore the committed ones
     subprocess.run(["git", "checkout", "--", "evidence"], cwd=HERE)
     shutil.rmtree(os.path.join(HERE, "replays"), ignore_errors=True)
+    rp = os.path.join(HERE, "mutants", "results.json")
+    allres = json.load(open(rp)) if os.path.exists(rp) else {}
+    for mid, prop, verdict in results:
+        allres[mid] = verdict.replace("- ", "", 1) if verdict.startswith("- ") else verdict
+    json.dump(allres, open(rp, "w"), indent=1, sort_keys=True)
     missed = [r for r in results if "MISSED" in r[2] or "BROKEN" in r[2] or "HARNESS" in r[2]]
     print("%d mutants, %d not caught" % (len(results), len(missed)))
     return 1 if missed else 0
